@@ -270,3 +270,66 @@ pub fn split_cfg(cfg: &str) -> (bool, &str) {
     let signed = match cfg.as_bytes()[0] { b'u' => false, b'i' => true, _ => panic!("bad cfg") };
     (signed, &cfg[1..])
 }
+
+/// Expand `$m!(kind sign (Type) extra…)` for the integer type named `$name`: bnum configurations of
+/// the cast grid (`u8x3`, `i64x2`, …; kind `bn`) and the twelve primitive integers (kind `pr`).
+#[macro_export]
+macro_rules! for_type {
+    ($name:expr, $m:ident ! ( $($extra:tt)* )) => {
+        match $name {
+            "u8x1" => $m!(bn u ($crate::bnum::BUintD8<1>) $($extra)*),
+            "i8x1" => $m!(bn i ($crate::bnum::BIntD8<1>) $($extra)*),
+            "u8x2" => $m!(bn u ($crate::bnum::BUintD8<2>) $($extra)*),
+            "i8x2" => $m!(bn i ($crate::bnum::BIntD8<2>) $($extra)*),
+            "u8x3" => $m!(bn u ($crate::bnum::BUintD8<3>) $($extra)*),
+            "i8x3" => $m!(bn i ($crate::bnum::BIntD8<3>) $($extra)*),
+            "u8x5" => $m!(bn u ($crate::bnum::BUintD8<5>) $($extra)*),
+            "i8x5" => $m!(bn i ($crate::bnum::BIntD8<5>) $($extra)*),
+            "u8x8" => $m!(bn u ($crate::bnum::BUintD8<8>) $($extra)*),
+            "i8x8" => $m!(bn i ($crate::bnum::BIntD8<8>) $($extra)*),
+            "u8x16" => $m!(bn u ($crate::bnum::BUintD8<16>) $($extra)*),
+            "i8x16" => $m!(bn i ($crate::bnum::BIntD8<16>) $($extra)*),
+            "u8x17" => $m!(bn u ($crate::bnum::BUintD8<17>) $($extra)*),
+            "i8x17" => $m!(bn i ($crate::bnum::BIntD8<17>) $($extra)*),
+            "u16x1" => $m!(bn u ($crate::bnum::BUintD16<1>) $($extra)*),
+            "i16x1" => $m!(bn i ($crate::bnum::BIntD16<1>) $($extra)*),
+            "u16x2" => $m!(bn u ($crate::bnum::BUintD16<2>) $($extra)*),
+            "i16x2" => $m!(bn i ($crate::bnum::BIntD16<2>) $($extra)*),
+            "u16x3" => $m!(bn u ($crate::bnum::BUintD16<3>) $($extra)*),
+            "i16x3" => $m!(bn i ($crate::bnum::BIntD16<3>) $($extra)*),
+            "u16x4" => $m!(bn u ($crate::bnum::BUintD16<4>) $($extra)*),
+            "i16x4" => $m!(bn i ($crate::bnum::BIntD16<4>) $($extra)*),
+            "u16x5" => $m!(bn u ($crate::bnum::BUintD16<5>) $($extra)*),
+            "i16x5" => $m!(bn i ($crate::bnum::BIntD16<5>) $($extra)*),
+            "u32x1" => $m!(bn u ($crate::bnum::BUintD32<1>) $($extra)*),
+            "i32x1" => $m!(bn i ($crate::bnum::BIntD32<1>) $($extra)*),
+            "u32x2" => $m!(bn u ($crate::bnum::BUintD32<2>) $($extra)*),
+            "i32x2" => $m!(bn i ($crate::bnum::BIntD32<2>) $($extra)*),
+            "u32x3" => $m!(bn u ($crate::bnum::BUintD32<3>) $($extra)*),
+            "i32x3" => $m!(bn i ($crate::bnum::BIntD32<3>) $($extra)*),
+            "u32x4" => $m!(bn u ($crate::bnum::BUintD32<4>) $($extra)*),
+            "i32x4" => $m!(bn i ($crate::bnum::BIntD32<4>) $($extra)*),
+            "u32x6" => $m!(bn u ($crate::bnum::BUintD32<6>) $($extra)*),
+            "i32x6" => $m!(bn i ($crate::bnum::BIntD32<6>) $($extra)*),
+            "u64x1" => $m!(bn u ($crate::bnum::BUint<1>) $($extra)*),
+            "i64x1" => $m!(bn i ($crate::bnum::BInt<1>) $($extra)*),
+            "u64x2" => $m!(bn u ($crate::bnum::BUint<2>) $($extra)*),
+            "i64x2" => $m!(bn i ($crate::bnum::BInt<2>) $($extra)*),
+            "u64x3" => $m!(bn u ($crate::bnum::BUint<3>) $($extra)*),
+            "i64x3" => $m!(bn i ($crate::bnum::BInt<3>) $($extra)*),
+            "u8" => $m!(pr u (u8) $($extra)*),
+            "u16" => $m!(pr u (u16) $($extra)*),
+            "u32" => $m!(pr u (u32) $($extra)*),
+            "u64" => $m!(pr u (u64) $($extra)*),
+            "u128" => $m!(pr u (u128) $($extra)*),
+            "usize" => $m!(pr u (usize) $($extra)*),
+            "i8" => $m!(pr i (i8) $($extra)*),
+            "i16" => $m!(pr i (i16) $($extra)*),
+            "i32" => $m!(pr i (i32) $($extra)*),
+            "i64" => $m!(pr i (i64) $($extra)*),
+            "i128" => $m!(pr i (i128) $($extra)*),
+            "isize" => $m!(pr i (isize) $($extra)*),
+            _ => None,
+        }
+    };
+}
